@@ -24,10 +24,9 @@ StripDQ(b) == StripR(StripL(b))
 Msg(r) == IF r.text.e = "none" THEN <<>> ELSE r.text.v
 RefStatus(r) == [devs |-> {}, kind |-> Kind(r), code |-> r.code, msg |-> Msg(r), leftover |-> FALSE]
 
-\* the error parser only understands  [ "(" atom ")" ] SP quoted-non-empty   and a bare literal
-BadErr(r) == /\ r.st = "NO"
-             /\ ~(r.code = <<>> /\ r.text.e \in {"none", "l"})
-             /\ (r.cargs # <<>> \/ r.text.e # "q" \/ r.text.v = <<>>)
+\* the error parser reads  [ "(" code *(SP quoted) ")" ] [ SP (quoted / literal) ]  but a response-code argument
+\* sent as a *literal* ends the line inside the parentheses: that is still refused (Dev_BadErrorMessage)
+BadErr(r) == r.st = "NO" /\ \E i \in 1..Len(r.cargs) : r.cargs[i].e = "l"
 
 DevStatus(r) ==
   (IF "Dev_BadErrorMessage" \in EnabledDevs /\ BadErr(r)
@@ -39,7 +38,7 @@ DevStatus(r) ==
    THEN {[devs |-> {"Dev_ErrmsgRaw"}, kind |-> "no", code |-> r.code, msg |-> StripDQ(Esc(r.text.v)), leftover |-> FALSE]}
    ELSE {})
   \cup
-  (IF "Dev_StatusLiteralLeft" \in EnabledDevs /\ r.st = "OK" /\ HasLit(r)
+  (IF "Dev_StatusLiteralLeft" \in EnabledDevs /\ r.st = "OK" /\ \E i \in 1..Len(r.cargs) : r.cargs[i].e = "l"
    THEN {[devs |-> {"Dev_StatusLiteralLeft"}, kind |-> "ok", code |-> r.code, msg |-> Msg(r), leftover |-> TRUE]}
    ELSE {})
 
@@ -60,21 +59,28 @@ MarkerPrefix(b) ==   \* b starts with `{' digits [`+'] `}'
 
 FirstDQ(b) == LET S == {i \in 1..Len(b) : b[i] = DQ} IN IF S = {} THEN 0 ELSE Min(S)
 
-\* what the implementation makes of one listing line: [drop, name, active, devs]
+\* what the implementation makes of one listing line under the enabled deviations: [drop, name, active, devs]
+\* (each deviation is the behaviour of one historical defect; disabled = the reference reading of that aspect)
 ImplLine(line) ==
   LET it == line[1]
       act == IsActive(line)
+      On(d) == d \in EnabledDevs
+      Plain == [drop |-> FALSE, name |-> it.v, active |-> act, devs |-> {}]
   IN IF it.e = "l" THEN
-        IF MarkerPrefix(it.v) THEN [drop |-> TRUE, name |-> <<>>, active |-> FALSE, devs |-> {"Dev_ListNameLooksLikeLiteral"}]
-        ELSE IF act THEN [drop |-> FALSE, name |-> it.v \o <<SP, 65, 67, 84, 73, 86, 69>>, active |-> FALSE,
-                          devs |-> {"Dev_ListLiteralActive"}]
-        ELSE [drop |-> FALSE, name |-> it.v, active |-> FALSE, devs |-> {}]
-     ELSE LET raw == Esc(it.v)
+        IF On("Dev_ListNameLooksLikeLiteral") /\ MarkerPrefix(it.v)
+        THEN [drop |-> TRUE, name |-> <<>>, active |-> FALSE, devs |-> {"Dev_ListNameLooksLikeLiteral"}]
+        ELSE IF On("Dev_ListLiteralActive") /\ act
+        THEN [drop |-> FALSE, name |-> it.v \o <<SP, 65, 67, 84, 73, 86, 69>>, active |-> FALSE,
+              devs |-> {"Dev_ListLiteralActive"}]
+        ELSE Plain
+     ELSE IF On("Dev_ListQuotedEscapes") THEN
+          LET raw == Esc(it.v)
               q == FirstDQ(raw)
           IN IF q > 1 THEN   \* an escaped quote inside: the name stops at it, ACTIVE is not seen
                 [drop |-> FALSE, name |-> SubSeq(raw, 1, q - 1), active |-> FALSE, devs |-> {"Dev_ListQuotedEscapes"}]
              ELSE [drop |-> FALSE, name |-> raw, active |-> act /\ raw # <<>>,
                    devs |-> IF raw # it.v THEN {"Dev_ListQuotedEscapes"} ELSE {}]
+     ELSE Plain
 
 ImplList(r) ==
   LET L == [i \in 1..Len(r.lines) |-> ImplLine(r.lines[i])]
